@@ -448,7 +448,7 @@ def run_c05(tier, budget, rnd, res, script, post):
     # the "nothing known" bounds −inf / +inf (no bound computation has run yet).  Its result (inf / nan) is not judged; what is judged
     # is every ordinary game evaluated AFTER it in this process — per-process state must not remember the earlier game.
     from incomplete_cooperative.game import IncompleteCooperativeGame as _ICG
-    for n_p in range(14, 1, -1):
+    def nonfinite_precall(n_p):
         gp = _ICG(n_p)
         gp.set_value(float(rnd.randint(1, 9)), Coalition(2 ** n_p - 1))
         gp.set_upper_bounds(_np.full(2 ** n_p, _np.inf))
@@ -458,8 +458,14 @@ def run_c05(tier, budget, rnd, res, script, post):
             call(compute_exploitability, gp)
             call(lambda: MaxGainGame(gp, 0).get_values())
         res.count("C05:nonfinite-precall")
+    for n_p in range(2, 7):
+        nonfinite_precall(n_p)
     # every player count from 7 to 14 (thorough: 16), ascending: a fault that needs one particular n has nowhere to hide
+    # (strictly ascending, the non-finite call of each player count right before its judged game: tables that grow with n must grow
+    # step by step here — the descending order is the business of the C06 stream)
     for n_big in (range(7, 15) if tier == "quick" else range(7, 17)):
+        if n_big <= 14:
+            nonfinite_precall(n_big)
         if budget.left() < 20:
             res.notes.append("C05: large-n exploitability cases skipped (budget)")
             break
